@@ -314,7 +314,7 @@ def check_case(case, rec=None):
     return mm
 
 
-N = {"quick": 500, "thorough": 15000}
+N = {"quick": 1000, "thorough": 15000}
 
 
 def shard_plan(tier):
